@@ -18,6 +18,7 @@ import (
 
 	"github.com/piotrnar/gocoin/lib/btc"
 	"github.com/piotrnar/gocoin/lib/chain"
+	"github.com/piotrnar/gocoin/lib/others/sys"
 	"github.com/piotrnar/gocoin/lib/others/vhook"
 	"github.com/piotrnar/gocoin/lib/utxo"
 	"verif/chainkit"
@@ -47,7 +48,14 @@ type ChildRes struct {
 	UndoMissing []uint32 `json:"undo_missing,omitempty"`
 	// stage2 mode: the captures taken while this process continued the workload (directory names under <dir>.s2/)
 	Second []SecondCap `json:"second,omitempty"`
+	// library mode: the re-opened node is closed cleanly and opened again libCycles times BEFORE anything is fed; "" = every cycle
+	// came up in the state it was shut down in
+	Cycle string `json:"cycle,omitempty"`
 }
+
+// libCycles: clean Close + NewChainExt cycles a library-mode child performs on the re-opened directory (which of two equally high
+// leaves FindFarthestNode returns depends on Go's map order - every start is a new draw)
+const libCycles = 4
 
 type SecondCap struct {
 	Name  string `json:"name"`  // directory name
@@ -170,6 +178,23 @@ func childMain(args []string) {
 	if v, err := strconv.ParseUint(os.Getenv("C07_MAXDAT"), 10, 64); err == nil {
 		opts.BlockDBOpts = blockDBOpts(v) // the workload's data-file roll-over size: the same configuration in every restart
 	}
+	// client modes: the process starts like the client (client/init.go host_init): the data directory is locked before anything
+	// else touches it. LockDatabaseDir ends the process (os.Exit) when it cannot get the lock: the result file says so beforehand.
+	client := mode != "library"
+	lock := func(stage *string) {
+		if client {
+			*stage = "the process exited inside sys.LockDatabaseDir: the data directory could not be locked (stale " + dir + ".lock?)"
+			write()
+			sys.LockDatabaseDir(dir)
+			*stage = ""
+		}
+	}
+	unlock := func() {
+		if client {
+			sys.UnlockDatabaseDir() // client/main.go: after CloseBlockChain
+		}
+	}
+	lock(&res.Open)
 	var k *chainkit.Kit
 	open := func() (s string) {
 		defer func() {
@@ -195,6 +220,33 @@ func childMain(args []string) {
 	if mode == "stage2" || mode == "stage2all" {
 		stage2(k, dir, bf, res, write, mode == "stage2all")
 		return
+	}
+	if mode == "library" {
+		for i := 1; i <= libCycles && res.Cycle == ""; i++ {
+			pre := stateOf(k.Ch)
+			func() {
+				defer func() {
+					if x := recover(); x != nil {
+						res.Cycle = fmt.Sprintf("clean shutdown #%d: Close panics: %v", i, x)
+					}
+				}()
+				k.Ch.Close()
+			}()
+			if res.Cycle != "" {
+				break
+			}
+			if s := open(); s != "ok" {
+				res.Cycle = fmt.Sprintf("clean restart #%d: NewChainExt on the cleanly closed directory: %s", i, s)
+				break
+			}
+			if post := stateOf(k.Ch); post.Tip != pre.Tip || post.Dump != pre.Dump {
+				res.Cycle = fmt.Sprintf("clean restart #%d: tip %s height %d dump %s before the shutdown, tip %s height %d dump %s after the restart", i, pre.Tip[:16], pre.Height, pre.Dump, post.Tip[:16], post.Height, post.Dump)
+			}
+		}
+		if res.Cycle != "" {
+			write()
+			return
+		}
 	}
 	res.Recovery = "none"
 	if mode != "library" {
@@ -249,10 +301,13 @@ func childMain(args []string) {
 	}()
 	k.Ch = nil
 	if res.Reopen2 == "" {
+		unlock()
+		lock(&res.Reopen2)
 		res.Reopen2 = open()
 		if res.Reopen2 == "ok" {
 			res.S4 = stateOf(k.Ch)
 			k.Ch.Close()
+			unlock()
 		}
 	}
 	write()
